@@ -219,6 +219,26 @@ theorem handler_missing_query (env : Env) (rpc : Rpc) (o : Bool) : handler env r
     handler env rpc .unset o = .ok .invalidArgument ∧ handler env rpc (.not_ .absent) o = .ok .invalidArgument := by
   refine ⟨rfl, rfl, rfl⟩
 
+/-! ## the code before the fixes: both clauses of the property were false (witnesses in corpus/C24) -/
+
+/-- before the fix a meta query could not be converted at all, at any depth -/
+theorem orig_toProto_meta_panics :
+    toProtoOrig (.metaQ "k" "v") = .panic "unknown query node *query.Meta" ∧
+    toProtoOrig (.and_ [.substring "a" false false false, .not_ (.metaQ "k" "v")]) =
+      .panic "unknown query node *query.Meta" := by
+  constructor <;> simp [toProtoOrig, toProtoListOrig] <;> rfl
+
+/-- before the fix `QFromProto` panicked on a missing query, on an unset oneof and on a missing child at any depth,
+    and so did every handler: the service was not total -/
+theorem orig_handlers_not_total (env : Env) :
+    handlerOrig env .absent = .panic "invalid memory address or nil pointer dereference" ∧
+    handlerOrig env .unset = .panic "unknown query node <nil>" ∧
+    handlerOrig env (.and_ [.const true, .type_ .absent 3]) =
+      .panic "invalid memory address or nil pointer dereference" := by
+  refine ⟨rfl, rfl, ?_⟩
+  simp [handlerOrig, fromProtoOrig, fromProtoListOrig]
+  rfl
+
 /-! ## option / result / listing values: the conversions that are not plain copies -/
 
 /-- the three defined flush reasons and "none" survive `FlushReason.ToProto` / `FlushReasonFromProto` -/
